@@ -34,9 +34,49 @@ fn block_strategy(tier: Tier, auxpow_only: bool) -> BS<BlockCase> {
     gen::chain(&cfg).prop_map(|chain| BlockCase { chain }).boxed()
 }
 
+/// inputs of the defects repaired by the "fix:" commits (known_findings.json, fixed entries):
+/// plain regression checks that bypass the generators and run first
+fn regressions(id: &str) -> Vec<ScriptBatch> {
+    let a80 = vec![b'A'; 80];
+    let mut d4a = vec![0x6a, 0x4c, 0x50];
+    d4a.extend(&a80);
+    let d4b = vec![0x6a, 0x4d, 0x05, 0x00, b'h', b'e', b'l', b'l', b'o'];
+    let d4c = vec![0x6a, 0x4c, 0x05, b'h', b'e', b'l', b'l', b'o'];
+    let mut d4d = vec![0x76, 0xa9, 0x4c, 0x14];
+    d4d.extend([0x33u8; 20]);
+    d4d.extend([0x88, 0xac]);
+    let mut d6a = vec![0x51];
+    d6a.extend(std::iter::repeat(0u8).take(256));
+    let mut d6b = vec![0x51];
+    d6b.extend(std::iter::repeat(0u8).take(257));
+    d6b.extend([0x51, 0xae]);
+    let mut d6c = vec![0x51, 0x21];
+    d6c.extend([0x02u8; 33]);
+    d6c.extend([0x76, 0xae]);
+    let fork = vec![d4a.clone(), d4b.clone(), d4c.clone(), d4d.clone()];
+    let btc = vec![d4a, d4b, d4c, d6a, d6b, d6c];
+    match id {
+        "C05" | "C16" | "C14" => {
+            let mut v = vec![ScriptBatch { coin: Coin::Bitcoin, scripts: btc.clone() }, ScriptBatch { coin: Coin::Testnet3, scripts: btc }];
+            if id != "C05" {
+                v.push(ScriptBatch { coin: Coin::Litecoin, scripts: fork.clone() });
+                v.push(ScriptBatch { coin: Coin::Dogecoin, scripts: fork });
+            }
+            v
+        }
+        "C06" => FORK_COINS.iter().map(|c| ScriptBatch { coin: *c, scripts: fork.clone() }).collect(),
+        _ => vec![],
+    }
+}
+
 fn run_property(id: &str, eng: &Engine, a: &Args) -> (&'static str, Vec<&'static str>) {
     let tier = a.tier;
     let q = tier == Tier::Quick;
+    let reg = regressions(id);
+    if !reg.is_empty() {
+        let idc = id.to_string();
+        eng.enumerate("fixed-defect-regressions", reg, move |b| check_script_batch(b, &idc));
+    }
     match id {
         "C05" => {
             let n = if q { 2400 } else { 80_000 };
